@@ -50,7 +50,16 @@ def is_grid(x):
 class DecStr(str):
     """a str subclass (format() must return a str) whose text is a marker; every inspection the repository makes is overridden"""
     def __new__(cls, x, nd=None):
-        o = str.__new__(cls, '<numeral>')
+        text = '<numeral>'
+        if nd is not None and isinstance(_as_sc(x), SC):
+            # fixed-point rendering embedded in a larger text (f-string): a token the harness' parser maps back to the value
+            xs = _as_sc(x)
+            toks = core.CTX.extra.setdefault('tokens', [])
+            key = ('fixed', xs.p.key(), nd)
+            idx = next((i for i, (k_, _) in enumerate(toks) if k_ == key), None)
+            if idx is None: toks.append((key, xs)); idx = len(toks) - 1
+            text = f'\x02{idx}|.{nd}f\x03'
+        o = str.__new__(cls, text)
         o.x = x; o.nd = nd          # nd None: repr mode
         return o
 
